@@ -251,6 +251,16 @@ pub mod iter {
         #[verifier::external_body]
         fn to_iter(self) -> (r: Iter<T>) ensures r@.items == (match self { Some(t) => seq![t], None => Seq::<T>::empty() }), !r@.endless { unimplemented!() }
     }
+    /// R10: `.iter()` on a Vec / slice
+    pub trait IterShim<T> { fn iter_(&self) -> Iter<&T>; }
+    impl<T> IterShim<T> for Vec<T> {
+        #[verifier::external_body]
+        fn iter_(&self) -> (r: Iter<&T>) ensures r@.items.len() == self@.len(), forall|i: int| 0 <= i < self@.len() ==> *(#[trigger] r@.items[i]) == self@[i], !r@.endless { unimplemented!() }
+    }
+    impl<T> IterShim<T> for [T] {
+        #[verifier::external_body]
+        fn iter_(&self) -> (r: Iter<&T>) ensures r@.items.len() == self@.len(), forall|i: int| 0 <= i < self@.len() ==> *(#[trigger] r@.items[i]) == self@[i], !r@.endless { unimplemented!() }
+    }
     /// R10: `.into_iter()` on a Vec
     pub trait IntoIterShim<T> { fn into_iter_(self) -> Iter<T>; }
     impl<T> IntoIterShim<T> for Vec<T> {
